@@ -44,7 +44,7 @@ FUZZ = {
 # at most `preempt` non-default choices
 ENUM = {
     "C01": dict(preempt=2), "C02": dict(preempt=2), "C03": dict(preempt=2), "C12": dict(preempt=2),
-    "C07": dict(preempt=3), "C08": dict(preempt=3), "C20": dict(preempt=8),
+    "C07": dict(preempt=2, max_runs=60000), "C08": dict(preempt=2, max_runs=60000), "C20": dict(preempt=8, max_runs=60000),
 }
 
 RULE = {
